@@ -24,9 +24,21 @@
 
 """
 
-from Crypto.Hash import SHA256
 from Crypto.PublicKey import RSA
 from Crypto.Signature import pkcs1_15
+
+
+class _PrehashedSHA1(object):  # pylint: disable=too-few-public-methods
+    """A stand-in for a ``Crypto.Hash.SHA1`` object whose digest is the (already hashed) ADB token."""
+    oid = '1.3.14.3.2.26'
+    digest_size = 20
+
+    def __init__(self, digest):
+        self._digest = bytes(digest)
+
+    def digest(self):
+        """Return the token as-is."""
+        return self._digest
 
 
 class PycryptodomeAuthSigner(object):
@@ -69,8 +81,7 @@ class PycryptodomeAuthSigner(object):
             The signed ``data``
 
         """
-        h = SHA256.new(data)
-        return pkcs1_15.new(self.rsa_key).sign(h)
+        return pkcs1_15.new(self.rsa_key).sign(_PrehashedSHA1(data))
 
     def GetPublicKey(self):
         """Returns the public key in PEM format without headers or newlines.
